@@ -560,6 +560,10 @@ def check(pid, tier):
         from . import s6key
 
         obs += s6key.verify_key(pid)  # a shared specialisation key makes the round trip return a look-alike
+        from . import s3resolve
+
+        # the two directions must resolve customizations alike: each is proved to follow the same key / level order
+        obs += s3resolve.verify_overridden(pid, "serialize") + s3resolve.verify_overridden(pid, "deserialize")
     except Exception as e:  # noqa
         import traceback
 
